@@ -77,9 +77,10 @@ theorem index_is_cache_on_crash_images (ro : Bool) (cs : List FTxn) (ops1 ops2 :
           none).map Opened.state :=
   Proofs.IndexCache.open_crash_image_with_saved_index ro cs ops1 ops2 hcs hops k nb
 
-/-- … and an index the sanity check rejects is ignored altogether, whatever it contains. -/
+/-- … and an index the sanity check rejects — or on which it raises, having read garbage where a
+    foreign index points — is ignored altogether, whatever it contains and whatever the file is. -/
 theorem rejected_index_ignored (ro : Bool) (file : Bytes) (s : SavedIndex)
-    (h : checkSanity file s.index s.pos = .ok none) :
+    (h : ∀ l, checkSanity file s.index s.pos ≠ .ok (some l)) :
     openWith ro file (some s) = openWith ro file none :=
   Proofs.IndexCache.openWith_rejected ro file s h
 
